@@ -3,6 +3,7 @@ from gen_util import *
 import core, os, subprocess, re, time
 PID = "C10"
 DRIVER = "drv_ct"
+MATRIX_QUICK = [core.CONFIG_BZERO]   # both zeroing back-ends on every run
 EXTRA_PER_CONFIG = True           # thorough tier: the memcheck run is repeated at -O0 / -O3 / clang
 DRIVER_FLAGS = ("-g",)
 RULE = ("constant_time_equals (3 forms), get_hmac (2 forms), streaming HmacContext incl. re-initialisation of the same object, PBKDF2 vector and caller-buffer forms (>= 2 iterations), "
@@ -12,7 +13,7 @@ RULE = ("constant_time_equals (3 forms), get_hmac (2 forms), streaming HmacConte
 
 def gen(rng, tier):
     cases = []
-    for la in [0, 1, 7, 8, 20, 32, 40, 63, 64, 65, 100, 128, 129, 200]:
+    for la in [0, 1, 7, 8, 20, 32, 40, 63, 64, 65, 100, 128, 129, 200, 4095, 4096, 4097, 8192 + 100, 3 * 4096]:
         a = contents(rng, la, "rand")
         cases.append(Case("cteq %s %s" % (hexs(a), hexs(a)), "cteq equal len=%d" % la, la > 0, spec="spec.eq %s %s" % (hexs(a), hexs(a))))
         if la:
